@@ -28,14 +28,17 @@ def build_demo(wt, demo, exe):
         srcs = [demo] + sorted(glob.glob(os.path.join(ard, "*.cpp")))
         cmd = ["g++", "-O1", "-I" + os.path.join(wt, "include"), "-I" + ard, "-I" + os.path.join(wt, "src")] + srcs + [os.path.join(wt, "src", "libskinny.a"), "-o", exe, "-lpthread"]
     else:
-        cmd = ["gcc", "-O1", "-std=gnu99", "-I" + os.path.join(wt, "include"), "-I" + os.path.join(wt, "src"), demo, os.path.join(wt, "src", "libskinny.a"), "-o", exe, "-lpthread", "-ldl"]
+        import re
+        wraps = sorted(set(re.findall(r"__wrap_([A-Za-z_0-9]+)", open(demo).read())))
+        wl = ["-Wl," + ",".join("--wrap=" + w for w in wraps)] if wraps else []
+        cmd = ["gcc", "-O1", "-std=gnu99", "-I" + os.path.join(wt, "include"), "-I" + os.path.join(wt, "src"), demo, os.path.join(wt, "src", "libskinny.a"), "-o", exe, "-lpthread", "-ldl"] + wl
     p = sh(cmd)
     return p
 
 
 def run_demo(wt, demo, exe):
     if demo.endswith(".sh"):
-        p = sh(["bash", demo, wt], cwd=wt, timeout=600, env=dict(os.environ, TREE=wt, WT=wt, WORKTREE=wt))
+        p = sh(["bash", demo, wt], cwd=wt, timeout=600, env=dict(os.environ, TREE=wt, WT=wt, WORKTREE=wt, SKINNY_ROOT=wt, ROOT=wt))
     else:
         b = build_demo(wt, demo, exe)
         if b.returncode != 0:
@@ -96,8 +99,16 @@ def main():
         if os.path.exists(rd):
             shutil.copy(rd, os.path.join(dst, "README.md"))
         meta["what_we_ran"] = "tools/confirm_seeded.py: scratch worktree of /repo HEAD; make clean all check + demo on clean and patched tree; bin/check <prop> --tier %s with VERIF_REPO=<patched worktree>" % tier
-        json.dump(meta, open(os.path.join(dst, "meta.json"), "w"), indent=1)
-    print(json.dumps({k: meta[k] for k in meta if k not in ("clean_demo_output",)}, indent=1)[:3000])
+        mp = os.path.join(dst, "meta.json")
+        if os.path.exists(mp):      # keep results of checks tried in earlier runs
+            old = json.load(open(mp))
+            merged = dict(old.get("checks", {})); merged.update(meta["checks"]); meta["checks"] = merged
+            meta["properties_targeted"] = sorted(set(old.get("properties_targeted", [])) | set(props))
+        json.dump(meta, open(mp, "w"), indent=1)
+    brief = {k: meta.get(k) for k in ("name", "confirmed", "clean_suite_ok_lines", "clean_demo_exit", "patched_suite_ok_lines", "patched_demo_exit", "error")}
+    brief["patched_demo_output"] = (meta.get("patched_demo_output") or "")[-300:]
+    brief["checks"] = {p: {"fired": c["fired"], "exit": c["exit"], "violation_keys": c["violation_keys"][:4]} for p, c in meta.get("checks", {}).items()}
+    print(json.dumps(brief))
     return 0
 
 
